@@ -2,6 +2,7 @@ package parser
 
 import (
 	"regexp"
+	"strings"
 
 	"github.com/robertkrimen/otto/ast"
 	"github.com/robertkrimen/otto/file"
@@ -138,6 +139,14 @@ func (p *parser) parseRegExpLiteral() *ast.RegExpLiteral {
 		flags = p.literal
 		endOffset = p.chrOffset
 		p.next()
+	}
+
+	// ES5 7.8.5 / 15.10.4.1: flags other than one each of g, i, m are an early error.
+	for i, flag := range flags {
+		if (flag != 'g' && flag != 'i' && flag != 'm') || strings.ContainsRune(flags[:i], flag) {
+			p.error(idx, "Invalid regular expression flags '%s'", flags)
+			break
+		}
 	}
 
 	var value string
